@@ -543,6 +543,15 @@ master_selection(j_decompress_ptr cinfo)
   master->pass_number = 0;
   master->using_merged_upsample = use_merged_upsample(cinfo);
 
+  /* The color converter and color quantizer are not created for every image
+   * (merged upsampling, no color quantization), and objects created for a
+   * previous image were freed along with that image's memory pool.  Don't
+   * leave dangling pointers to them, since jpeg_skip_scanlines() examines
+   * these pointers.
+   */
+  cinfo->cconvert = NULL;
+  cinfo->cquantize = NULL;
+
   /* Color quantizer selection */
   master->quantizer_1pass = NULL;
   master->quantizer_2pass = NULL;
